@@ -12,6 +12,7 @@ V-b: pipeline sweep (graphql_sync and graphql on the deterministic loop): source
 from __future__ import annotations
 
 import random
+import re
 
 from . import common, gen_doc, lexbind, wire
 from .common import Evidence, Verdicts, run_tlc, pmap, seed
@@ -172,6 +173,10 @@ def exc_palette():
     odd = [with_attr("extensions", v) for v in (["jpg", "png"], "ext", ("a",), {"s"}, 42, NoBool(), [], 0, {1: 2}, {"k": object()})]
     odd += [with_attr("extensions", ["x"], OSError), with_attr("path", "notalist"), with_attr("path", 5), with_attr("locations", "x"), with_attr("nodes", 1),
             with_attr("message", 5), with_attr("positions", "p"), with_attr("source", 1), with_attr("original_error", 1), with_attr("args", ())]
+    for src_v, pos_v in (("abc", ["x"]), ("abc", 5), ("abc", [1, "2"]), ("abc", None), (5, [1]), ("", [0])):
+        e = with_attr("source", src_v)
+        e.positions = pos_v
+        odd.append(e)
     return odd + [Exception("e"), ValueError("v"), KeyError("k"), StopIteration(), StrRaises(), GraphQLError("g"),
             GraphQLError("g2", extensions={"a": 1}), WithExt("w"), ZeroDivisionError(), AttributeError("a"),
             UnicodeDecodeError("utf-8", b"\xff", 0, 1, "bad"), OSError(5, "io"), AssertionError(), TypeError("t"),
@@ -195,6 +200,8 @@ VARIABLES = [None, {}, {"v": "s"}, {"v": 1}, {"v": None}, {"x": 1}, {"x": "1"}, 
 
 OP_NAMES = [None, "Q", "A", "B", "Nope", "", "M"]
 VAR_SOURCES = [x for x in SOURCES if "($" in x or "( $" in x]
+ABSTRACT_SOURCES = ["{ u { ... on G { x } } }", "{ it { x } g { g { x } } u { __typename } }", "{ it { x ... on G { nn } } }", "{ a: u { __typename } b: it { x } f }",
+                    "{ u { ... on G { s g { x } } } n }", "{ it { __typename } }"]
 
 # keys whose case mappings change their length, empty / long / non-identifier keys
 ODD_KEYS = ["\u0130\u0130\u0130", "a\u0130", "\u00df", "\u0149a", "A", "", "a" * 300, "a b", "\ud800", "\x00", "__proto__", "c ", "B", "\u01f0\u01f0"]
@@ -352,12 +359,30 @@ def _vb_chunk(cases):
     from graphql.type import GraphQLObjectType
     from .detloop import DetLoop
     schema = _schema()
-    for tname in ("G", "U", "I"):
-        t = schema.type_map[tname]
-        if isinstance(t, GraphQLObjectType):
-            t.is_type_of = None
+    # type resolution misbehaves as resolvers do: per request (seeded) the resolve_type of U / I and the is_type_of of G
+    # answer at once or as an awaitable, and answer, raise an exception of the palette, or return something odd
+    tmode = {"rng": random.Random(0), "excs": [], "async": False}
+
+    def type_answer(good):
+        import asyncio
+        rng_t = tmode["rng"]
+        r = rng_t.random()
+
+        def now():
+            if r < 0.2:
+                raise rng_t.choice(tmode["excs"])
+            if r < 0.27:
+                return rng_t.choice([None, 5, "Nope", "Query", object()])
+            return good
+        if tmode["async"] and rng_t.random() < 0.5:
+            async def later():
+                await asyncio.sleep(0)
+                return now()
+            return later()
+        return now()
     for abstract in ("U", "I"):
-        schema.type_map[abstract].resolve_type = lambda *_a: "G"
+        schema.type_map[abstract].resolve_type = lambda *_a: type_answer("G")
+    schema.type_map["G"].is_type_of = lambda *_a: type_answer(True)
     bad_schema = build_schema("type Query { f(a: Query): String }", assume_valid=False)
     excs = exc_palette()
     out, recs = [], []
@@ -366,6 +391,12 @@ def _vb_chunk(cases):
         if isinstance(variables, tuple):
             variables = gen_variables(random.Random(variables[1]))     # generated here: not every value can be pickled
         rng = random.Random(sd)
+        tmode.update(rng=random.Random(sd + 17), excs=excs, **{"async": mode != "sync"})
+        # half of the requests resolve abstract types through resolve_type, the others through is_type_of of the possible type
+        use_is_type_of = sd % 2 == 0
+        schema.type_map["G"].is_type_of = (lambda *_a: type_answer(True)) if use_is_type_of else None
+        for abstract in ("U", "I"):
+            schema.type_map[abstract].resolve_type = None if use_is_type_of else (lambda *_a: type_answer("G"))
         sch = bad_schema if use_bad else schema
         try:
             stage = stage_of(sch, source)
@@ -464,7 +495,11 @@ Check == LET c == Cases[i] IN (c.accepted => Lex(c.s).ok) \/ PrintT(ToJson([viol
     cases = []
     for k in range(n):
         gen = k % 2 == 0
-        cases.append((seed() * 1000003 + k, rng.choice(VAR_SOURCES if gen and k % 8 else SOURCES), ("gen", seed() * 7919 + k) if gen else rng.choice(VARIABLES), rng.choice(OP_NAMES),
+        src_k = rng.choice(VAR_SOURCES if gen and k % 8 else ABSTRACT_SOURCES if k % 5 == 1 else SOURCES)
+        # the operation name: any of the palette, but mostly one under which the request gets past operation selection
+        named = re.findall(r"\b(?:query|mutation|subscription) +([A-Za-z_]\w*)", src_k)
+        opn = rng.choice(OP_NAMES) if rng.random() < 0.25 else rng.choice(named + [None] if len(named) <= 1 else named)
+        cases.append((seed() * 1000003 + k, src_k, ("gen", seed() * 7919 + k) if gen else rng.choice(VARIABLES), opn,
                       rng.choice(["sync", "sync", "async"]), rng.random() < 0.05))
     vrecs = []
     for out, recs in pmap(_vb_chunk, cases, chunk=50):
